@@ -21,6 +21,17 @@ MUTATIONS = {
         ('decode', 'tonic/src/codec/decode.rs', r'if self\.buf\.remaining\(\) < HEADER_SIZE \{', 'if self.buf.remaining() < HEADER_SIZE - 1 {', 'header read one byte early'),
         ('encode', 'tonic/src/codec/encode.rs', r'buf\.put_u8\(compression_encoding\.is_some\(\) as u8\);', 'buf.put_u8(compression_encoding.is_none() as u8);', 'compressed flag polarity'),
     ],
+    'C02': [
+        ('clientglue', 'tonic/src/client/grpc.rs', r'self\.config\.send_compression_encodings,\s*self\.config\.max_encoding_message_size,', 'None,\n                    self.config.max_encoding_message_size,', 'request body built without the configured compression'),
+        ('clientglue', 'tonic/src/client/grpc.rs', r'if status\.code\(\) != Code::Ok \{', 'if status.code() == Code::Ok {', 'trailers-only error status treated as success'),
+        ('clientglue', 'tonic/src/client/grpc.rs', r'\.insert\(TE, HeaderValue::from_static\("trailers"\)\);', '.insert(TE, HeaderValue::from_static("trailer"));', 'te header misspelt'),
+        ('clientglue', 'tonic/src/client/grpc.rs', r'self\.config\.max_decoding_message_size,\n', 'self.config.max_encoding_message_size,\n', 'decoder limited by the encoding limit'),
+        ('clientglue', 'tonic/src/client/grpc.rs', r'http::Method::POST,', 'http::Method::GET,', 'call sent as GET'),
+        ('clientglue', 'tonic/src/client/grpc.rs', r'status\.metadata_mut\(\)\.merge\(parts\.clone\(\)\);', '', 'early error loses the initial metadata'),
+        ('clientglue', 'tonic/src/client/grpc.rs', r'parts\.merge\(trailers\);', 'let _ = trailers;', 'trailing metadata dropped from a unary response'),
+        ('clientglue', 'tonic/src/client/grpc.rs', r'Status::internal\("Missing response message\."\)', 'Status::unknown("Missing response message.")', 'missing response message reported with another code'),
+        ('clientglue', 'tonic/src/client/grpc.rs', r'if let Some\(trailers\) = body\.trailers\(\)\.await\? \{', 'if let Ok(Some(trailers)) = body.trailers().await {', 'error status in the trailers of a unary call ignored'),
+    ],
     'C03': [
         ('encode', 'tonic/src/codec/encode.rs', r'Role::Client => None,', 'Role::Client => Some(Status::ok("").to_header_map()),', 'client body emits trailers'),
         ('encode', 'tonic/src/codec/encode.rs', r'if self\.is_end_stream \{\s*return None;\s*\}', '', 'trailers can be emitted twice'),
